@@ -1014,7 +1014,7 @@ func (w *World) crash(dmg []damage) {
 	w.curT = nil
 	if err := w.newClient(true); err != nil {
 		prop := "C02"
-		if w.scn.AdoptProp != "" {
+		if w.scn.AdoptProp != "" && targetProp != "C02" { // a failing adoption is C02's business in any scenario
 			prop = w.scn.AdoptProp
 		}
 		if len(dmg) > 0 {
